@@ -3,6 +3,11 @@ C22 helper: an independent RV32IM(+Zbs/Zbb immediates used by the rv32 dialect) 
 machine model in Python, an assembler-text parser for the subset xDSL emits, and the encodability
 ("assembles") predicate.  Nothing here imports xDSL: this is the oracle side.
 
+F/D part: 32 float registers of 64 bits (single precision NaN-boxed), IEEE-754 round-to-nearest-even arithmetic
+computed on exact rationals (add sub mul div min max, fused multiply-add with ONE rounding, sign injection, compares,
+fld/fsd/flw/fsw); `Machine.fuse` lets the oracle evaluate a designated fadd/fsub fused with the product it consumes
+(the contraction the `contract` fast-math flag licences).
+
 Machine: 32-bit registers (x0 hard-wired to zero), word memory (aligned lw/sw only; misaligned traps),
 program = list of instructions / labels; pc counts list positions.  `ra` holds a return *position*
 encoded as an address `TEXT + 4*pos`; the top-level caller's return address is `HALT`.
@@ -27,6 +32,15 @@ REGNUM.update({f"x{i}": i for i in range(32)})
 REGNUM["fp"] = 8
 CALLEE_SAVED = ["sp"] + [f"s{i}" for i in range(12)]
 
+# F/D register file (64-bit; single precision values are NaN-boxed)
+FABI = (
+    [f"ft{i}" for i in range(8)] + ["fs0", "fs1"] + [f"fa{i}" for i in range(8)]
+    + [f"fs{i}" for i in range(2, 12)] + [f"ft{i}" for i in range(8, 12)]
+)
+FREGNUM = {n: i for i, n in enumerate(FABI)}
+FCALLEE_SAVED = [f"fs{i}" for i in range(12)]
+M64 = (1 << 64) - 1
+
 
 def sx(v: int, bits: int) -> int:
     v &= (1 << bits) - 1
@@ -46,6 +60,23 @@ R_OPS = {"add", "sub", "mul", "and", "or", "xor", "sll", "srl", "sra", "slt", "s
 I_OPS = {"addi", "andi", "ori", "xori", "slti", "sltiu"}
 SH_OPS = {"slli", "srli", "srai", "bclri", "bexti", "binvi", "bseti", "rori"}
 BR_OPS = {"beq", "bne", "blt", "bge", "bltu", "bgeu"}
+# F/D subset: what convert-arith-to-riscv emits for addf/subf/mulf/divf/minimumf/maximumf, the fused ops
+# canonicalization can introduce, the sign-injection family (fmv/fneg/fabs are pseudo-instructions of it),
+# loads/stores.  Everything else is "unknown mnemonic".
+F_BIN = {"fadd", "fsub", "fmul", "fdiv", "fmin", "fmax"}
+F_FMA = {"fmadd", "fmsub", "fnmsub", "fnmadd"}
+F_SGN = {"fsgnj", "fsgnjn", "fsgnjx"}
+F_CMP = {"feq", "flt", "fle"}
+
+
+def fsplit(m: str) -> tuple[str, str] | None:
+    """`fadd.d` → ("fadd", "d"); None for a mnemonic outside the F/D subset"""
+    if "." not in m:
+        return None
+    base, _, prec = m.partition(".")
+    if prec in ("s", "d") and (base in F_BIN or base in F_FMA or base in F_SGN or base in F_CMP or base == "fmv"):
+        return base, prec
+    return None
 
 
 def alu_r(op: str, a: int, b: int) -> int:
@@ -154,6 +185,180 @@ def branch_taken(op: str, a: int, b: int) -> bool:
     raise Trap(f"unknown branch {op}")
 
 
+
+# ------------------------------------------------------------------------------------------------
+# IEEE-754 binary32/binary64 arithmetic on bit patterns, round-to-nearest-even, RISC-V NaN rules
+# (every arithmetic NaN result is the canonical quiet NaN; sign injection and moves copy bits)
+# ------------------------------------------------------------------------------------------------
+
+import struct as _struct
+from fractions import Fraction as _Fr
+
+QNAN64 = 0x7FF8000000000000
+QNAN32 = 0x7FC00000
+
+
+def box32(v: int) -> int:
+    return 0xFFFFFFFF00000000 | (v & M32)
+
+
+def unbox32(v: int) -> int:
+    """a single-precision operand read from a 64-bit register: not NaN-boxed = canonical NaN"""
+    return (v & M32) if (v >> 32) == M32 else QNAN32
+
+
+def _fmt(d: bool) -> tuple[int, int, int, int]:
+    """(precision p, emin, emax, exponent field width)"""
+    return (53, -1022, 1023, 11) if d else (24, -126, 127, 8)
+
+
+def fdecode(bits: int, d: bool) -> tuple[str, int, _Fr | None]:
+    """("nan"|"inf"|"fin", sign, exact value)"""
+    p, emin, emax, ew = _fmt(d)
+    w = 64 if d else 32
+    sign = (bits >> (w - 1)) & 1
+    e = (bits >> (p - 1)) & ((1 << ew) - 1)
+    mant = bits & ((1 << (p - 1)) - 1)
+    if e == (1 << ew) - 1:
+        return ("nan" if mant else "inf", sign, None)
+    if e == 0:
+        v = _Fr(mant) * _Fr(2) ** (emin - (p - 1))
+    else:
+        v = _Fr(mant | (1 << (p - 1))) * _Fr(2) ** (e - emax - (p - 1))
+    return ("fin", sign, -v if sign else v)
+
+
+def fround(q: _Fr, zero_sign: int, d: bool) -> int:
+    """the exact rational q rounded to nearest (ties to even); an exact zero gets `zero_sign`"""
+    p, emin, emax, ew = _fmt(d)
+    w = 64 if d else 32
+    if q == 0:
+        return zero_sign << (w - 1)
+    sign = 1 if q < 0 else 0
+    a = -q if sign else q
+    e = a.numerator.bit_length() - a.denominator.bit_length()
+    if _Fr(2) ** e > a:
+        e -= 1
+    elif _Fr(2) ** (e + 1) <= a:
+        e += 1
+    qe = max(e, emin) - (p - 1)
+    scaled = a / _Fr(2) ** qe
+    n = scaled.numerator // scaled.denominator
+    rem = scaled - n
+    if rem > _Fr(1, 2) or (rem == _Fr(1, 2) and n & 1):
+        n += 1
+    if n == 1 << p:
+        n >>= 1
+        qe += 1
+    if n < 1 << (p - 1):          # subnormal (or zero after rounding)
+        return (sign << (w - 1)) | n
+    ef = qe + (p - 1) + emax
+    if ef >= (1 << ew) - 1:
+        return (sign << (w - 1)) | (((1 << ew) - 1) << (p - 1))
+    return (sign << (w - 1)) | (ef << (p - 1)) | (n - (1 << (p - 1)))
+
+
+def _inf(sign: int, d: bool) -> int:
+    p, _, _, ew = _fmt(d)
+    return (sign << ((64 if d else 32) - 1)) | (((1 << ew) - 1) << (p - 1))
+
+
+def fbin(op: str, x: int, y: int, d: bool) -> int:
+    qnan = QNAN64 if d else QNAN32
+    kx, sx_, vx = fdecode(x, d)
+    ky, sy, vy = fdecode(y, d)
+    if op in ("fmin", "fmax"):
+        if kx == "nan" and ky == "nan":
+            return qnan
+        if kx == "nan":
+            return y
+        if ky == "nan":
+            return x
+        key = lambda k, s, v: (float("-inf") if s else float("inf")) if k == "inf" else v  # noqa: E731
+        a, b = key(kx, sx_, vx), key(ky, sy, vy)
+        if a == b:  # ±0: -0 is the smaller one
+            return (x if sx_ >= sy else y) if op == "fmin" else (x if sx_ <= sy else y)
+        return (x if a < b else y) if op == "fmin" else (x if a > b else y)
+    if kx == "nan" or ky == "nan":
+        return qnan
+    if op == "fsub":
+        op, sy, vy = "fadd", sy ^ 1, (None if vy is None else -vy)
+    if op == "fadd":
+        if kx == "inf" or ky == "inf":
+            if kx == "inf" and ky == "inf":
+                return qnan if sx_ != sy else _inf(sx_, d)
+            return _inf(sx_ if kx == "inf" else sy, d)
+        zs = sx_ if (vx == 0 and vy == 0 and sx_ == sy) else 0
+        return fround(vx + vy, zs, d)
+    s = sx_ ^ sy
+    if op == "fmul":
+        if kx == "inf" or ky == "inf":
+            return qnan if (vx == 0 or vy == 0) else _inf(s, d)
+        return fround(vx * vy, s, d)
+    if op == "fdiv":
+        if kx == "inf":
+            return qnan if ky == "inf" else _inf(s, d)
+        if ky == "inf":
+            return s << ((64 if d else 32) - 1)
+        if vy == 0:
+            return qnan if vx == 0 else _inf(s, d)
+        return fround(vx / vy, s, d)
+    raise Trap(f"unknown float op {op}")
+
+
+def ffma(x: int, y: int, z: int, d: bool) -> int:
+    """x*y + z with a single rounding"""
+    qnan = QNAN64 if d else QNAN32
+    kx, sx_, vx = fdecode(x, d)
+    ky, sy, vy = fdecode(y, d)
+    kz, sz, vz = fdecode(z, d)
+    if "nan" in (kx, ky, kz):
+        return qnan
+    ps = sx_ ^ sy
+    if kx == "inf" or ky == "inf":
+        if vx == 0 or vy == 0:
+            return qnan
+        if kz == "inf" and sz != ps:
+            return qnan
+        return _inf(ps, d)
+    if kz == "inf":
+        return _inf(sz, d)
+    prod = vx * vy
+    zs = ps if (prod == 0 and vz == 0 and ps == sz) else 0
+    return fround(prod + vz, zs, d)
+
+
+def fsgn(op: str, x: int, y: int, d: bool) -> int:
+    sb = 1 << (63 if d else 31)
+    sy = y & sb
+    if op == "fsgnjn":
+        sy ^= sb
+    elif op == "fsgnjx":
+        sy ^= x & sb
+    return (x & (sb - 1)) | sy
+
+
+def fcmp(op: str, x: int, y: int, d: bool) -> int:
+    kx, sx_, vx = fdecode(x, d)
+    ky, sy, vy = fdecode(y, d)
+    if kx == "nan" or ky == "nan":
+        return 0
+    key = lambda k, s, v: (float("-inf") if s else float("inf")) if k == "inf" else v  # noqa: E731
+    a, b = key(kx, sx_, vx), key(ky, sy, vy)
+    return int(a == b if op == "feq" else a < b if op == "flt" else a <= b)
+
+
+def f64_bits(v: float) -> int:
+    return _struct.unpack("<Q", _struct.pack("<d", v))[0]
+
+
+def bits_f64(b: int) -> float:
+    return _struct.unpack("<d", _struct.pack("<Q", b & M64))[0]
+
+
+def is_nan_bits(b: int, d: bool) -> bool:
+    return fdecode(b if d else b & M32, d)[0] == "nan"
+
 # ------------------------------------------------------------------------------------------------
 # instruction form: (mnemonic, [args]); register args are strings, immediates ints, labels ("@", name)
 # a label definition is ("label", [name])
@@ -161,6 +366,10 @@ def branch_taken(op: str, a: int, b: int) -> bool:
 
 def is_phys(r: Any) -> bool:
     return isinstance(r, str) and r in REGNUM
+
+
+def is_fphys(r: Any) -> bool:
+    return isinstance(r, str) and r in FREGNUM
 
 
 def is_virtual(r: Any) -> bool:
@@ -180,8 +389,31 @@ def encodable(ins: tuple[str, list[Any]], allow_virtual: bool = False) -> str | 
                 return f"operand {r!r} is not a register"
         return None
 
+    def freg(r: Any) -> bool:
+        return is_fphys(r) or (allow_virtual and is_virtual(r))
+
+    def fregs(*rs: Any) -> str | None:
+        for r in rs:
+            if not freg(r):
+                return f"operand {r!r} is not a float register"
+        return None
+
     if m == "label":
         return None
+    fs = fsplit(m)
+    if fs is not None:
+        base = fs[0]
+        if base in F_BIN or base in F_SGN:
+            return fregs(*a) if len(a) == 3 else "arity"
+        if base in F_FMA:
+            return fregs(*a) if len(a) == 4 else "arity"
+        if base in F_CMP:
+            return (regs(a[0]) or fregs(a[1], a[2])) if len(a) == 3 else "arity"
+        return fregs(*a) if len(a) == 2 else "arity"  # fmv.s / fmv.d
+    if m in ("fld", "fsd", "flw", "fsw"):
+        if len(a) != 3 or not isinstance(a[2], int):
+            return "memory operand"
+        return fregs(a[0]) or regs(a[1]) or (None if -2048 <= a[2] <= 2047 else f"offset {a[2]} does not fit 12 signed bits")
     if m in R_OPS:
         return regs(*a) if len(a) == 3 else "arity"
     if m in I_OPS:
@@ -223,6 +455,11 @@ class Machine:
     def __init__(self, prog: list[tuple[str, list[Any]]], regs: dict[str, int] | None = None, mem_seed: int = 0):
         self.prog = prog
         self.r: dict[str, int] = {}
+        self.f: dict[str, int] = {}
+        # contraction licence (oracle side): position of an fadd/fsub → (position of the fmul, operand index
+        # of the product): that instruction is evaluated fused (one rounding) on the recorded multiplicands
+        self.fuse: dict[int, tuple[int, int]] = {}
+        self.mul_rec: dict[int, tuple[int, int]] = {}
         for k, v in (regs or {}).items():
             self.set(k, v)
         self.mem: dict[int, int] = {}  # word memory: aligned byte address → 32-bit word
@@ -235,13 +472,25 @@ class Machine:
         return ABI[REGNUM[r]] if r in REGNUM else r
 
     def get(self, r: str) -> int:
+        if r in FREGNUM:
+            return self.getf(r)
         r = self.canon(r)
         return 0 if r == "zero" else self.r.get(r, 0)
 
     def set(self, r: str, v: int) -> None:
+        if r in FREGNUM:
+            self.setf(r, v)
+            return
         r = self.canon(r)
         if r != "zero":
             self.r[r] = v & M32
+
+    # float register file: 64-bit patterns; physical names f-ABI, virtual names as they come
+    def getf(self, r: str) -> int:
+        return self.f.get(r, 0)
+
+    def setf(self, r: str, v: int) -> None:
+        self.f[r] = v & M64
 
     def mem0(self, addr: int) -> int:
         """initial memory word: 0, or a pseudo-random function of the address (same as Lean's mem0)"""
@@ -270,6 +519,23 @@ class Machine:
             raise Trap(f"cannot assemble `{fmt(ins)}`: {why}")
         nxt = pc + 1
         if m in ("label", "nop"):
+            return nxt
+        fs = fsplit(m)
+        if fs is not None:
+            self.exec_float(fs[0], fs[1], a, pc)
+            return nxt
+        if m in ("fld", "fsd", "flw", "fsw"):
+            addr = (self.get(a[1]) + a[2]) & M32
+            if m == "fsd":
+                v = self.getf(a[0])
+                self.store32(addr, v & M32)
+                self.store32((addr + 4) & M32, v >> 32)
+            elif m == "fld":
+                self.setf(a[0], self.load32(addr) | (self.load32((addr + 4) & M32) << 32))
+            elif m == "fsw":
+                self.store32(addr, self.getf(a[0]) & M32)
+            else:
+                self.setf(a[0], box32(self.load32(addr)))
             return nxt
         if m in R_OPS:
             self.set(a[0], alu_r(m, self.get(a[1]), self.get(a[2])))
@@ -310,6 +576,41 @@ class Machine:
                 raise Trap(f"ret to a non-code address {ra:#x}")
             return (ra - TEXT) // 4
         return nxt
+
+    def exec_float(self, base: str, prec: str, a: list[Any], pc: int) -> None:
+        d = prec == "d"
+        rd = (lambda r: self.getf(r)) if d else (lambda r: unbox32(self.getf(r)))
+        wr = (lambda r, v: self.setf(r, v)) if d else (lambda r, v: self.setf(r, box32(v)))
+        if base == "fmv":
+            wr(a[0], rd(a[1]))
+        elif base in F_SGN:
+            wr(a[0], fsgn(base, rd(a[1]), rd(a[2]), d))
+        elif base in F_CMP:
+            self.set(a[0], fcmp(base, rd(a[1]), rd(a[2]), d))
+        elif base in F_FMA:
+            x, y, z = rd(a[1]), rd(a[2]), rd(a[3])
+            sb = 1 << (63 if d else 31)
+            if base in ("fnmsub", "fnmadd"):   # -(x*y) ± z
+                x ^= sb
+            if base in ("fmsub", "fnmadd"):
+                z ^= sb
+            wr(a[0], ffma(x, y, z, d))
+        else:
+            x, y = rd(a[1]), rd(a[2])
+            if base == "fmul":
+                self.mul_rec[pc] = (x, y)
+            lic = self.fuse.get(pc)
+            if lic is not None and base in ("fadd", "fsub") and lic[0] in self.mul_rec:
+                mx, my = self.mul_rec[lic[0]]
+                sb = 1 << (63 if d else 31)
+                other = y if lic[1] == 0 else x
+                if base == "fsub" and lic[1] == 0:      # m - c  = fma(a, b, -c)
+                    other ^= sb
+                elif base == "fsub":                    # c - m  = fma(-a, b, c)
+                    mx ^= sb
+                wr(a[0], ffma(mx, my, other, d))
+            else:
+                wr(a[0], fbin(base, x, y, d))
 
     def run_straight(self) -> None:
         for i, ins in enumerate(self.prog):
@@ -362,7 +663,7 @@ def parse_asm(text: str) -> list[tuple[str, list[Any]]]:
         toks = [t.strip() for t in argtxt.split(",")] if argtxt.strip() or "," in argtxt else []
         args: list[Any] = []
         for t in toks:
-            if t in REGNUM:
+            if t in REGNUM or t in FREGNUM:
                 args.append(t)
             elif t.lstrip("-").isdigit():
                 args.append(int(t))
@@ -392,6 +693,20 @@ def regnum(r: str) -> int:
     raise ValueError(f"not a register: {r!r}")
 
 
+def fregnum(r: str) -> int:
+    """F/D register number for the Lean float-rule protocol: physical 0..31, unallocated 32+n"""
+    if r in FREGNUM:
+        return FREGNUM[r]
+    if is_virtual(r):
+        return 32 + int(r[1:])
+    raise ValueError(f"not a float register: {r!r}")
+
+
+def flean_instr(ins: tuple[str, list[Any]]) -> str:
+    m, a = ins
+    return " ".join([m] + [str(x) if isinstance(x, int) else str(fregnum(x)) for x in a])
+
+
 def lean_instr(ins: tuple[str, list[Any]], labels: dict[str, int] | None = None) -> str:
     m, a = ins
     if m == "label":
@@ -413,4 +728,4 @@ def lean_prog(prog: list[tuple[str, list[Any]]]) -> str:
 
 
 def lean_regs(regs: dict[str, int]) -> str:
-    return " ".join(f"{regnum(k)}={v & M32}" for k, v in regs.items() if regnum(k) != 0)
+    return " ".join(f"{regnum(k)}={v & M32}" for k, v in regs.items() if k not in FREGNUM and regnum(k) != 0)
